@@ -52,6 +52,9 @@ impl<W: HWord> WordWrite for SparseWrite<W> {
             self.nonzero.insert(self.words, word.to_ne_vec());
         }
         self.words += 1;
+        if self.words & 0xF_FFFF == 0 {
+            crate::tick(); // progress on the logical clock of the hang watchdog
+        }
         Ok(())
     }
     fn flush(&mut self) -> Result<(), io::Error> {
@@ -85,6 +88,9 @@ impl<W: HWord> WordRead for SparseRead<W> {
     #[inline]
     fn read_word(&mut self) -> Result<W, io::Error> {
         self.calls += 1;
+        if self.calls & 0xF_FFFF == 0 {
+            crate::tick();
+        }
         if self.calls > self.limit {
             panic!("{}", crate::backends::BUDGET_MSG);
         }
